@@ -262,7 +262,7 @@ class ProgressReporter(object):
         """Reset the value to 0 and the value max to a given value."""
         self._value = 0
         if value_max is not None:
-            self._value_max = value_max
+            self.value_max = value_max
 
     @property
     def value(self):
